@@ -40,6 +40,10 @@ def run(tier, seed):
         if not (mo or me): continue
         for v in variants()[:3] + variants()[4:5]:
             jobs.append(({'so': so, 'se': se, 'mo': mo, 'me': me, 'umask': 0o22, 'stdin': 'in', 'shell': '/bin/sh', 'mailrc': rnd.choice([75, 1, 69])}, v))
+    # requests of two tasks (one echsx takes them in turn): a short task whose output is mailed goes first, then the job
+    for (so, se, mo, me) in rows:
+        for v in variants()[:2] + variants()[3:4]:
+            jobs.append(({'so': so, 'se': se, 'mo': mo, 'me': me, 'umask': 0o22, 'stdin': 'in2', 'shell': '/bin/sh', 'warmup': True}, v))
     # --no-run requests
     for (so, se, mo, me) in rows[::3]:
         jobs.append(({'so': so, 'se': se, 'mo': mo, 'me': me, 'umask': 0o22, 'stdin': 'x', 'norun': True}, dict(bursts=[(1, 1)], exitcode=0)))
